@@ -632,14 +632,16 @@ impl<'r> Lowerer<'r> {
     ) -> Value {
         let name = func.name;
 
+        // The arguments will be dropped by the callee, but only once the
+        // call happens. Until then they are live: a later argument can
+        // leave the function early and has to drop the earlier ones.
         let mut args = Vec::new();
         if let Some((receiver, ty)) = receiver {
             let ty = self.type_info.convert(&ty);
-            // This values will be dropped by the callee
             let tmp = self.undropped_tmp();
-            self.vars.push((tmp.clone(), ty));
 
             self.do_assign(Place::new(tmp.clone(), ty), ty, receiver);
+            self.add_live_variable(tmp.clone(), ty);
             args.push(tmp);
         }
 
@@ -648,13 +650,17 @@ impl<'r> Lowerer<'r> {
             let ty = self.type_info.convert(&ty);
             let op = self.expr(a);
 
-            // These values will be dropped by the callee
             let tmp = self.undropped_tmp();
-            self.vars.push((tmp.clone(), ty));
 
             self.do_assign(Place::new(tmp.clone(), ty), ty, op);
+            self.add_live_variable(tmp.clone(), ty);
             tmp
         }));
+
+        // From here on the values belong to the callee
+        for tmp in &args {
+            self.remove_live_variable(tmp);
+        }
 
         let mir_signature = ty::Signature {
             parameter_types: func
@@ -851,7 +857,6 @@ impl<'r> Lowerer<'r> {
         for expr in list {
             let list_var = Value::Clone(Place::new(tmp.clone(), ty));
             let list_var = self.assign_to_var(list_var, ty);
-            self.remove_live_variable(&list_var);
 
             let elem = self.expr(expr);
             let elem_ty = self.type_info.type_of(expr);
@@ -864,6 +869,10 @@ impl<'r> Lowerer<'r> {
                 elem_ty,
                 elem,
             );
+
+            // The handle is passed to `push`, which drops it. Until then it
+            // is live: the element can leave the function early.
+            self.remove_live_variable(&list_var);
 
             let func_ref =
                 self.find_method(TypeId::of::<ErasedList>(), "push");
